@@ -132,7 +132,7 @@ func BuildProgram(fsys fs.FS, opts Options) (*Code, error) {
 	}
 
 	// Emit the code.
-	code, err := emitProgram(tree.Nodes[0].(*ast.Package), typeInfos, tci[tree.Path].IndirectVars)
+	code, err := emitProgram(tree.Nodes[0].(*ast.Package), tree.Path, typeInfos, tci[tree.Path].IndirectVars)
 	if err != nil {
 		return nil, err
 	}
@@ -237,10 +237,10 @@ type Code struct {
 	TypeOf runtime.TypeOfFunc
 }
 
-// emitProgram emits the code for a program given its ast node, the type info
-// and indirect variables. emitProgram returns an emittedPackage  instance
+// emitProgram emits the code for a program given its ast node, the path of
+// its file, the type info and indirect variables. emitProgram returns an emittedPackage  instance
 // with the global variables and the main function.
-func emitProgram(pkgMain *ast.Package, typeInfos map[ast.Node]*typeInfo, indirectVars map[*ast.Identifier]bool) (_ *Code, err error) {
+func emitProgram(pkgMain *ast.Package, path string, typeInfos map[ast.Node]*typeInfo, indirectVars map[*ast.Identifier]bool) (_ *Code, err error) {
 	defer func() {
 		if r := recover(); r != nil {
 			if e, ok := r.(*LimitExceededError); ok {
@@ -251,7 +251,7 @@ func emitProgram(pkgMain *ast.Package, typeInfos map[ast.Node]*typeInfo, indirec
 		}
 	}()
 	e := newEmitter(typeInfos, nil, indirectVars)
-	functions, _, _ := e.emitPackage(pkgMain, false, "main")
+	functions, _, _ := e.emitPackage(pkgMain, false, path)
 	main, _ := e.fnStore.availableScriggoFn(pkgMain, "main")
 	pkg := &Code{
 		Globals:   e.varStore.getGlobals(),
